@@ -16,7 +16,11 @@
 // push oracles), CFaultSet (arbitrary sets of failing writes), CShape, CSealT (one injected write(2)
 // failure inside the real fm.seal on a corpus with full LID blocks).
 //
-// The cases are evaluated against props/C08/coq/{Model,ModelGen,CaseDefs}.v.
+// Round-6 extension (pool.go): CPool / CPoolServe (writeSealedFraction while a second user of the shared
+// bytespool runs at the Seek and the Write entry of every block; read-back through disk.IndexReader;
+// publish + restart).  HC08_ONLY=pool runs only these classes (mutation-testing aid).
+//
+// The cases are evaluated against props/C08/coq/{Model,ModelGen,ModelPool,CaseDefs}.v.
 package main
 
 import (
